@@ -3,7 +3,7 @@ package props
 func init() {
 	register(&Check{
 		ID: "C20",
-		Expl: "Decides the locking disciplines the daemon's race- and deadlock-freedom rests on, over all paths of the program text: " +
+		Expl: "(E1b.bookkeeping / E1.refresh-exclusion) the per-peer advertised-route bookkeeping, which is an unsynchronised map, is only touched with that peer's route-refresh lock held exclusively or with it shared plus the prefix bucket, and every full replay holds it exclusively. Decides the locking disciplines the daemon's race- and deadlock-freedom rests on, over all paths of the program text: " +
 			"(E1a) the interprocedural lock-order graph over all 14+ lock classes is acyclic (self-edges only behind a verified gate lock or on a freshly allocated instance); " +
 			"(E1b) every write/armed read of a field in the guarded-by table, and every call of a requires-lock function, happens with the lock in the must-held set (meet over all call paths from API entry points, goroutine starts and callbacks); " +
 			"(E1c) the management loop is never re-entered (mgmtOperation) and no WaitGroup is awaited while a lock its signallers need may be held; " +
@@ -21,6 +21,8 @@ func init() {
 			c.ruleReentry()
 			c.ruleGuarded("E1b.guarded", guardTable, 150)
 			c.ruleRequires("E1b.requires", requiresTable, 15)
+			c.ruleBookkeepingLocks("E1b.bookkeeping")
+			c.ruleRefreshExclusion()
 			c.rulePurity("E2d.pure", []string{"pkg/packet/bgp"}, 500)
 			c.ruleMacIndexHandles()
 			c.ruleActiveDestinations()
